@@ -9,8 +9,8 @@
     (statements printed by Coq from the lemmas they are proved by - tools/mkprop.py; statements only) *)
 From Coq Require Import Permutation Sorted.
 From CC Require Import Base.Prelude Base.Alloc Base.Ledger Generated.Status Generated.Constants Generated.Guards.
-From CC Require Import Rbuf.RbufModel SPool.SPoolModel DPool.DPoolModel Array.ArrayModel Deque.DequeModel PQueue.PQueueModel Hash.HashModel Tst.TstModel Tree.TreeModel.
-From CC Require Import Array.ArrayMore Array.ArrayRefine DPool.DPoolLedger Deque.DequeProofs5 Hash.HashProofsE PQueue.PQueueProofs2 Rbuf.RbufProofs SPool.SPoolProofs Tree.TreeTheorems Tst.TstProofs2.
+From CC Require Import Rbuf.RbufModel SPool.SPoolModel DPool.DPoolModel Array.ArrayModel Deque.DequeModel PQueue.PQueueModel Hash.HashModel Tst.TstModel Tree.TreeModel List_.ListModel SList.SListModel.
+From CC Require Import Array.ArrayMore Array.ArrayRefine DPool.DPoolLedger Deque.DequeProofs5 Hash.HashProofsE List_.ListProofs5 List_.ListProofs6 PQueue.PQueueProofs2 Rbuf.RbufProofs SList.SListProofs5 SPool.SPoolProofs Tree.TreeTheorems Tst.TstProofs2.
 Local Open Scope N_scope.
 
 (** CC_Rbuf: no history faults *)
@@ -242,4 +242,62 @@ Theorem C06_spool_run :
   forall (ops : list sp_op) (p : spool), sp_inv p -> sp_inv (sp_run p ops).
 Proof. exact CC.SPool.SPoolProofs.sp_run_inv. Qed.
 Print Assumptions C06_spool_run.
+
+(** CC_List: destroy releases the header and every node exactly once *)
+Theorem C06_list_destroy :
+  forall (s : clist) (l : list (N * N)) (a : alloc_st) (F : list block),
+         ListHeap.lrep s l ->
+         ListProofs1.lown a s l F ->
+         exists a' : alloc_st,
+           cl_destroy s a = Ok a' /\
+           Permutation (live a') F /\ ListHeap.lok a' /\ ListHeap.aframe a a' /\ plan a' = plan a.
+Proof. exact CC.List_.ListProofs6.destroy_spec. Qed.
+Print Assumptions C06_list_destroy.
+
+(** CC_List: destroy_cb / remove_all_cb call the callback once per element, in order *)
+Theorem C06_list_destroy_cb :
+  forall (s : clist) (l : list (N * N)) (a : alloc_st) (F : list block),
+         ListHeap.lrep s l ->
+         ListProofs1.lown a s l F ->
+         exists a' : alloc_st,
+           cl_destroy_cb s a = Ok (a', map snd l) /\
+           Permutation (live a') F /\ ListHeap.lok a' /\ ListHeap.aframe a a'.
+Proof. exact CC.List_.ListProofs6.destroy_cb_spec. Qed.
+Print Assumptions C06_list_destroy_cb.
+
+(** CC_List: every two-list history returns Ok (no NULL / dangling node access in the explicit node heap) *)
+Theorem C06_list_run :
+  forall (cmp : N -> N -> comparison) (pred : N -> bool) (ops : list (hnd * lop)) (w : world),
+         ListProofs4.winv w ->
+         (has_splice ops = true -> l_mem (wa w) = l_mem (wb w)) ->
+         exists (outs : list lout) (w' : world) (fls : list bool),
+           cl_run cmp pred w ops = Ok (outs, w') /\
+           ListProofs4.winv w' /\
+           length fls = length ops /\
+           (outs, ListProofs4.wabs w') = ListModel.spec_run cmp pred (ListProofs4.wabs w) ops fls /\
+           ListHeap.aframe (wal w) (wal w') /\
+           (plan (wal w) = [] -> fls_ok cmp pred (limit (wal w)) (ListProofs4.wabs w) ops fls).
+Proof. exact CC.List_.ListProofs5.list_run_refines. Qed.
+Print Assumptions C06_list_run.
+
+(** CC_SList *)
+Theorem C06_slist_destroy :
+  forall (s : slist) (l : list (N * N)) (a : alloc_st) (F : list block),
+         SListHeap.srep s l ->
+         SListProofs1.slown a s l F ->
+         exists a' : alloc_st,
+           sl_destroy s a = Ok a' /\
+           Permutation (live a') F /\ ListHeap.lok a' /\ ListHeap.aframe a a' /\ plan a' = plan a.
+Proof. exact CC.SList.SListProofs5.sdestroy_spec. Qed.
+Print Assumptions C06_slist_destroy.
+
+Theorem C06_slist_destroy_cb :
+  forall (s : slist) (l : list (N * N)) (a : alloc_st) (F : list block),
+         SListHeap.srep s l ->
+         SListProofs1.slown a s l F ->
+         exists a' : alloc_st,
+           sl_destroy_cb s a = Ok (a', map snd l) /\
+           Permutation (live a') F /\ ListHeap.lok a' /\ ListHeap.aframe a a' /\ plan a' = plan a.
+Proof. exact CC.SList.SListProofs5.sdestroy_cb_spec. Qed.
+Print Assumptions C06_slist_destroy_cb.
 
